@@ -24,9 +24,17 @@ open PM.Img PM.PyOps PM.Spec
 /-- `Images.validate()` has no rule to run (generated inventory) -/
 theorem C02_images_no_validators : validateClass "images.Images" [] = .ok () := by decide +kernel
 
-/-- a valid image with proper ints is read back from its dictionary with all fifteen attributes unchanged -/
-theorem C02_image_roundtrip (i : Image) (hv : i.validate = .ok ()) (hp : ProperInts i) :
-    Image.deserialize (.str currentVersion) i.dict = .ok i := image_roundtrip i hv hp
+/-- **F22 repaired: `ProperInts` is no hypothesis any more.**  `_assert_type` accepts a bool only where `bool` is listed
+(`Gen.assertTypeBoolStrict`, translated from the method's body), so the four integer attributes of an image that passes
+its validators hold ints proper, never bools -/
+theorem C02_valid_ints_proper (i : Image) (hv : i.validate = .ok ()) : ProperInts i := valid_properInts i hv
+
+theorem withInts {l : List Image} (hv : ∀ i ∈ l, i.validate = .ok ()) : ∀ i ∈ l, i.validate = .ok () ∧ ProperInts i :=
+  fun i h => ⟨hv i h, valid_properInts i (hv i h)⟩
+
+/-- a valid image is read back from its dictionary with all fifteen attributes unchanged -/
+theorem C02_image_roundtrip (i : Image) (hv : i.validate = .ok ()) :
+    Image.deserialize (.str currentVersion) i.dict = .ok i := image_roundtrip i hv (valid_properInts i hv)
 
 /-- the compose section comes back in normal form … -/
 theorem C02_compose_roundtrip (c : Compose) (rest d : PyVal) (h : c.serialize = .ok d) :
@@ -53,24 +61,25 @@ theorem readD_dict (i : Image) (hv : i.validate = .ok ()) (hp : ProperInts i) : 
   simp [readD, image_roundtrip i hv hp]
 
 /--
-**C02_readback (partial: hypotheses `Uniq` and `ProperInts`).**  For every manifest whose compose section and images
-validate, whose cells are keyed by admissible arches, whose integer attributes are ints and which satisfies identity
-uniqueness: writing succeeds, reading the written document succeeds, and the manifest read holds exactly the same
+**C02_readback (partial: hypothesis `Uniq`).**  For every manifest whose compose section and images
+validate, whose cells are keyed by admissible arches and which satisfies identity uniqueness: writing succeeds, reading the written document succeeds, and the manifest read holds exactly the same
 multiset of (variant, arch, record) filings — nothing gained, nothing lost, all fifteen attributes of every
 record equal, an object filed in k cells comes back as k equal records — with the compose section in normal form
 and the current format version.
 
-Full statement without `Uniq` is false of the code (F11, `C02_F11_witness`); without `ProperInts` the bytes of a
-second dump differ (F22, `C02_bool_int_witness`).
+Full statement without `Uniq` is false of the code (F11, `C02_F11_witness`).  The former hypothesis `ProperInts` (integer
+attributes hold ints, not bools: F22) is gone: it follows from `validate = ok` since `_assert_type` refuses a bool where
+`bool` is not listed (`C02_valid_ints_proper`, `C02_bool_int_refused`; `Gen.assertTypeBoolStrict`).
 -/
 theorem C02_readback_partial (m : ImgState)
     (hc : m.compose.validate = .ok ())
-    (hi : ∀ i ∈ m.cells.all, i.validate = .ok () ∧ ProperInts i)
+    (hval : ∀ i ∈ m.cells.all, i.validate = .ok ())
     (ha : ∀ t ∈ triples m.cells, Gen.RPM_ARCHES.contains t.2.1 = true ∧ refusedArches.contains t.2.1 = false)
     (hu : Uniq m.cells) :
     ∃ doc m', (serialize m).2 = .ok doc ∧ deserialize doc = .ok m'
       ∧ (triples m'.cells).Perm (triples m.cells) ∧ m'.compose = composeNorm m.compose
       ∧ m'.version = .str currentVersion := by
+  have hi := withInts hval
   -- the writer
   have hvalid : ∀ va ∈ m.cells, ∀ ac ∈ va.2, ∀ e ∈ ac.2, e.2.validate = .ok () :=
     fun va h1 ac h2 e h3 => (hi _ (mem_all_of_entry h1 h2 h3)).1
@@ -175,12 +184,12 @@ theorem composeNorm_idem (c : Compose) : composeNorm (composeNorm c) = composeNo
 every further document holds the same multiset of filings -/
 theorem C02_cycle_closed (m m' : ImgState)
     (hc : m.compose.validate = .ok ())
-    (hi : ∀ i ∈ m.cells.all, i.validate = .ok () ∧ ProperInts i)
+    (hi : ∀ i ∈ m.cells.all, i.validate = .ok ())
     (ha : ∀ t ∈ triples m.cells, Gen.RPM_ARCHES.contains t.2.1 = true ∧ refusedArches.contains t.2.1 = false)
     (hu : Uniq m.cells)
     (hp : (triples m'.cells).Perm (triples m.cells)) (hcomp : m'.compose = composeNorm m.compose) :
     m'.compose.validate = .ok ()
-    ∧ (∀ i ∈ m'.cells.all, i.validate = .ok () ∧ ProperInts i)
+    ∧ (∀ i ∈ m'.cells.all, i.validate = .ok ())
     ∧ (∀ t ∈ triples m'.cells, Gen.RPM_ARCHES.contains t.2.1 = true ∧ refusedArches.contains t.2.1 = false)
     ∧ Uniq m'.cells ∧ composeNorm m'.compose = m'.compose := by
   have hall := C02_all m m' hp
@@ -283,7 +292,7 @@ read back from the written document is written to a document with the **same byt
 -/
 theorem C02_fixpoint (m : ImgState)
     (hc : m.compose.validate = .ok ())
-    (hi : ∀ i ∈ m.cells.all, i.validate = .ok () ∧ ProperInts i)
+    (hi : ∀ i ∈ m.cells.all, i.validate = .ok ())
     (ha : ∀ t ∈ triples m.cells, Gen.RPM_ARCHES.contains t.2.1 = true ∧ refusedArches.contains t.2.1 = false)
     (hu : Uniq m.cells) (hd : DistinctPaths m.cells)
     (doc : PyVal) (m' : ImgState) (h1 : (serialize m).2 = .ok doc) (h2 : deserialize doc = .ok m') :
@@ -295,8 +304,8 @@ theorem C02_fixpoint (m : ImgState)
   obtain ⟨cd, hcd⟩ : ∃ cd, m.compose.serialize = .ok cd := by
     simp only [Compose.serialize, hc, bind, Except.bind]; exact ⟨_, rfl⟩
   have hcd' : m'.compose.serialize = .ok cd := by rw [hcomp, compose_serialize_norm _ hc, hcd]
-  have hdoc := serialize_doc m cd hcd (fun i h => (hi i h).1)
-  have hdoc' := serialize_doc m' cd hcd' (fun i h => (hi' i h).1)
+  have hdoc := serialize_doc m cd hcd hi
+  have hdoc' := serialize_doc m' cd hcd' hi'
   rw [h1] at hdoc; injection hdoc with hdoc
   have htab : PyVal.canon (outFold (triples m'.cells) []).toPy = PyVal.canon (outFold (triples m.cells) []).toPy := by
     refine (toPy_canon_perm (triples m.cells) (triples m'.cells) hperm.symm ?_).symm
@@ -326,7 +335,7 @@ def reloadDumps (parse : Str → Except Err PyVal) (t : Str) : Except Err Str :=
 -/
 theorem C02_bytes (parse : Str → Except Err PyVal) (m : ImgState)
     (hc : m.compose.validate = .ok ())
-    (hi : ∀ i ∈ m.cells.all, i.validate = .ok () ∧ ProperInts i)
+    (hi : ∀ i ∈ m.cells.all, i.validate = .ok ())
     (ha : ∀ t ∈ triples m.cells, Gen.RPM_ARCHES.contains t.2.1 = true ∧ refusedArches.contains t.2.1 = false)
     (hu : Uniq m.cells) (hd : DistinctPaths m.cells)
     (hjson : ∀ doc, (serialize m).2 = .ok doc → parse (JsonText.dumps doc) = .ok doc)
@@ -403,24 +412,38 @@ theorem C02_F11_witness :
     ∧ errIs (match (serialize wF11).2 with | .ok doc => deserialize doc | .error _ => .ok default) .valueError = true := by
   refine ⟨by rfl, by decide +kernel⟩
 
-/-- **F22**: a bool passes as the size, is written as `true` and read back as `1` -/
-theorem C02_bool_int_witness :
-    Image.validate { wA with size := .bool true } = .ok ()
-    ∧ errIs ((Image.deserialize (.str currentVersion) (Image.dict { wA with size := .bool true })).bind
-        fun j => if j.size == .int 1 then .error .other else .ok ()) .other = true := by
+/-- **F22 repaired**: a bool in any of the four integer attributes no longer passes the validators (before the repair
+`size = True` passed, was written as `true` and read back as `1`) … -/
+theorem C02_bool_int_refused (i : Image) (b : Bool)
+    (h : i.mtime = .bool b ∨ i.size = .bool b ∨ i.disc_number = .bool b ∨ i.disc_count = .bool b) : i.validate ≠ .ok () := by
+  intro hv
+  obtain ⟨⟨n1, h1⟩, ⟨n2, h2⟩, ⟨n3, h3⟩, ⟨n4, h4⟩⟩ := valid_properInts i hv
+  rcases h with h | h | h | h
+  · rw [h1] at h; cases h
+  · rw [h2] at h; cases h
+  · rw [h3] at h; cases h
+  · rw [h4] at h; cases h
+
+/-- … with TypeError, and a manifest holding such an image is not written (`dumps` raises TypeError) -/
+theorem C02_bool_int_refused_witness :
+    Image.validate { wA with size := .bool true } = .error .typeError
+    ∧ Image.validate { wA with mtime := .bool false } = .error .typeError
+    ∧ Image.validate { wA with disc_number := .bool true } = .error .typeError
+    ∧ Image.validate { wA with disc_count := .bool true } = .error .typeError
+    ∧ errIs (dumps { compose := wCompose, cells := [(L "Server", [(L "x86_64", [(0, { wA with size := .bool true })])])] }).2 .typeError = true := by
   decide +kernel
 
 /-- the hypotheses of `C02_readback_partial` hold of `wGood` (non-vacuity) -/
 example : wGood.compose.validate = .ok () := by decide +kernel
-example : ∀ i ∈ wGood.cells.all, i.validate = .ok () ∧ ProperInts i := by
+example : ∀ i ∈ wGood.cells.all, i.validate = .ok () := by
   intro i hi
   have : i = wA ∨ i = wC := by
     simp only [wGood, Cells.all, List.flatMap_cons, List.flatMap_nil, List.map_cons, List.map_nil, List.append_nil,
       List.cons_append, List.nil_append, List.mem_cons, List.not_mem_nil, or_false] at hi
     rcases hi with h | h | h | h <;> simp [h]
   rcases this with rfl | rfl
-  · exact ⟨by decide +kernel, ⟨_, rfl⟩, ⟨_, rfl⟩, ⟨_, rfl⟩, ⟨_, rfl⟩⟩
-  · exact ⟨by decide +kernel, ⟨_, rfl⟩, ⟨_, rfl⟩, ⟨_, rfl⟩, ⟨_, rfl⟩⟩
+  · decide +kernel
+  · decide +kernel
 /-- … and the model really performs the cycle on it: the document is read back and the second document is identical -/
 example : errIs (match (serialize wGood).2 with | .ok doc => deserialize doc | .error _ => .error .other) .valueError = false := by
   decide +kernel
@@ -466,7 +489,7 @@ theorem C02_hjson_witness :
 below: `C02_bytes_parsed`).  Same conclusion as `C02_bytes` with `parse := JsonParse.parseWith lim`. -/
 theorem C02_bytes_parsed_hyp (lim : Nat) (m : ImgState)
     (hc : m.compose.validate = .ok ())
-    (hi : ∀ i ∈ m.cells.all, i.validate = .ok () ∧ ProperInts i)
+    (hi : ∀ i ∈ m.cells.all, i.validate = .ok ())
     (ha : ∀ t ∈ triples m.cells, Gen.RPM_ARCHES.contains t.2.1 = true ∧ refusedArches.contains t.2.1 = false)
     (hu : Uniq m.cells) (hd : DistinctPaths m.cells)
     (hrep : ∀ doc, (serialize m).2 = .ok doc → Mf.jsonRep doc = true ∧ JsonParse.numsOk lim doc = true)
@@ -520,12 +543,14 @@ namespace Img
 /-- **the images reader is independent of dict key order** (on written documents) -/
 theorem reload_canon (m : ImgState)
     (hc : m.compose.validate = .ok ())
-    (hi : ∀ i ∈ m.cells.all, i.validate = .ok () ∧ ProperInts i ∧ ContainersRep i)
+    (hval : ∀ i ∈ m.cells.all, i.validate = .ok () ∧ ContainersRep i)
     (ha : ∀ t ∈ triples m.cells, Gen.RPM_ARCHES.contains t.2.1 = true ∧ refusedArches.contains t.2.1 = false)
     (hu : Uniq m.cells) (doc : PyVal) (hs : (serialize m).2 = .ok doc) :
     ∃ m' m'', deserialize doc = .ok m' ∧ deserialize (PyVal.canon doc) = .ok m'' ∧ Img.Same m' m''
       ∧ (triples m'.cells).Perm (triples m.cells) := by
-  have hi' : ∀ i ∈ m.cells.all, i.validate = .ok () ∧ ProperInts i := fun i h => ⟨(hi i h).1, (hi i h).2.1⟩
+  have hi : ∀ i ∈ m.cells.all, i.validate = .ok () ∧ ProperInts i ∧ ContainersRep i :=
+    fun i h => ⟨(hval i h).1, valid_properInts i (hval i h).1, (hval i h).2⟩
+  have hi' : ∀ i ∈ m.cells.all, i.validate = .ok () := fun i h => (hi i h).1
   obtain ⟨doc0, m', hs0, hd0, hperm, hcomp, _⟩ := C02_readback_partial m hc hi' ha hu
   rw [hs] at hs0; injection hs0 with hs0; subst hs0
   obtain ⟨cd, hcd⟩ : ∃ cd, m.compose.serialize = .ok cd := by
@@ -553,26 +578,28 @@ end Img
 /-- `Img.reload_canon` under the property's name (registered and audited with the other C02 theorems) -/
 theorem C02_reload_canon (m : ImgState)
     (hc : m.compose.validate = .ok ())
-    (hi : ∀ i ∈ m.cells.all, i.validate = .ok () ∧ ProperInts i ∧ ContainersRep i)
+    (hi : ∀ i ∈ m.cells.all, i.validate = .ok () ∧ ContainersRep i)
     (ha : ∀ t ∈ triples m.cells, Gen.RPM_ARCHES.contains t.2.1 = true ∧ refusedArches.contains t.2.1 = false)
     (hu : Uniq m.cells) (doc : PyVal) (hs : (serialize m).2 = .ok doc) :
     ∃ m' m'', deserialize doc = .ok m' ∧ deserialize (PyVal.canon doc) = .ok m'' ∧ Img.Same m' m''
       ∧ (triples m'.cells).Perm (triples m.cells) := Img.reload_canon m hc hi ha hu doc hs
 
 /-- **C02_bytes through the modelled CPython parser, hypotheses on the object only.**  For a manifest whose compose section
-and images validate, whose integer attributes are ints, whose `checksums` / `additional_variants` hold JSON values, whose cells
+and images validate, whose `checksums` / `additional_variants` hold JSON values, whose cells
 are keyed by admissible arches, with unique identities and distinct paths per cell, and whose integers fit the interpreter's
 digit limit `lim` (nothing to check for `lim = 0`, or below 641 digits: `numsFit_zero`, `JsonParse.intFits_of_length`): the text
 `dumps()` returns, parsed by `JsonParse.parseWith lim` (the model of `json.loads`), loaded and dumped again, is the same text. -/
 theorem C02_bytes_parsed (lim : Nat) (m : ImgState)
     (hc : m.compose.validate = .ok ())
-    (hi : ∀ i ∈ m.cells.all, i.validate = .ok () ∧ ProperInts i ∧ ContainersRep i ∧ NumsFit lim i)
+    (hval : ∀ i ∈ m.cells.all, i.validate = .ok () ∧ ContainersRep i ∧ NumsFit lim i)
     (hrespin : JsonParse.numsOk lim m.compose.respin = true)
     (ha : ∀ t ∈ triples m.cells, Gen.RPM_ARCHES.contains t.2.1 = true ∧ refusedArches.contains t.2.1 = false)
     (hu : Uniq m.cells) (hd : DistinctPaths m.cells)
     (t : Str) (ht : (dumps m).2 = .ok t) : reloadDumps (JsonParse.parseWith lim) t = .ok t := by
-  have hi2 : ∀ i ∈ m.cells.all, i.validate = .ok () ∧ ProperInts i := fun i h => ⟨(hi i h).1, (hi i h).2.1⟩
-  have hi3 : ∀ i ∈ m.cells.all, i.validate = .ok () ∧ ProperInts i ∧ ContainersRep i := fun i h => ⟨(hi i h).1, (hi i h).2.1, (hi i h).2.2.1⟩
+  have hi : ∀ i ∈ m.cells.all, i.validate = .ok () ∧ ProperInts i ∧ ContainersRep i ∧ NumsFit lim i :=
+    fun i h => ⟨(hval i h).1, valid_properInts i (hval i h).1, (hval i h).2⟩
+  have hi2 : ∀ i ∈ m.cells.all, i.validate = .ok () := fun i h => (hi i h).1
+  have hi3 : ∀ i ∈ m.cells.all, i.validate = .ok () ∧ ContainersRep i := fun i h => ⟨(hi i h).1, (hi i h).2.2.1⟩
   obtain ⟨doc, _, hs, _, _, _, _⟩ := C02_readback_partial m hc hi2 ha hu
   obtain ⟨m', m'', hd1, hd2, hsame, hperm⟩ := Img.reload_canon m hc hi3 ha hu doc hs
   -- the bytes of the manifest read from the document as written
@@ -619,16 +646,16 @@ theorem C02_bytes_parsed (lim : Nat) (m : ImgState)
   rw [← htext]; exact hm''
 
 /-- non-vacuity: the object-level hypotheses hold of the example manifest `wGood` (default digit limit) -/
-example : ∀ i ∈ wGood.cells.all, i.validate = .ok () ∧ ProperInts i ∧ ContainersRep i ∧ NumsFit JsonParse.defaultLimit i := by
+example : ∀ i ∈ wGood.cells.all, i.validate = .ok () ∧ ContainersRep i ∧ NumsFit JsonParse.defaultLimit i := by
   intro i hi
   have : i = wA ∨ i = wC := by
     simp only [wGood, Cells.all, List.flatMap_cons, List.flatMap_nil, List.map_cons, List.map_nil, List.append_nil,
       List.cons_append, List.nil_append, List.mem_cons, List.not_mem_nil, or_false] at hi
     rcases hi with h | h | h | h <;> simp [h]
   rcases this with rfl | rfl
-  · exact ⟨by decide +kernel, ⟨⟨_, rfl⟩, ⟨_, rfl⟩, ⟨_, rfl⟩, ⟨_, rfl⟩⟩, ⟨by decide +kernel, by decide +kernel⟩,
+  · exact ⟨by decide +kernel, ⟨by decide +kernel, by decide +kernel⟩,
       by decide +kernel, by decide +kernel, by decide +kernel, by decide +kernel, by decide +kernel, by decide +kernel⟩
-  · exact ⟨by decide +kernel, ⟨⟨_, rfl⟩, ⟨_, rfl⟩, ⟨_, rfl⟩, ⟨_, rfl⟩⟩, ⟨by decide +kernel, by decide +kernel⟩,
+  · exact ⟨by decide +kernel, ⟨by decide +kernel, by decide +kernel⟩,
       by decide +kernel, by decide +kernel, by decide +kernel, by decide +kernel, by decide +kernel, by decide +kernel⟩
 example : JsonParse.numsOk JsonParse.defaultLimit wGood.compose.respin = true := by decide +kernel
 /-- … and the conclusion on it, by evaluation: parsed by the modelled parser, loaded and dumped, the text is unchanged -/
